@@ -1,5 +1,5 @@
-CONSTANTS Components <- MComponents Mutators <- MMutators CompOf <- MCompOf Contexts <- MContexts ProcessWide = {"umask", "ulimit"} MaxMut = 2
+CONSTANTS Components <- MComponents Mutators <- MMutators CompOf <- MCompOf Contexts <- MContexts ProcessWide = {"umask", "ulimit"} MaxMut = 2 JobWaited <- MJobWaited
 DEV = {}
 SPECIFICATION Spec
-INVARIANTS Isolation LeakNeedsMutation Emit
+INVARIANTS Isolation LeakNeedsMutation ParentSurvives Emit
 CHECK_DEADLOCK FALSE
